@@ -341,12 +341,15 @@ CHECKS["C07"] = dict(
           "(0..2 replicas per master); op reparent: a replica is re-pointed to another master (every master keeps its address and slots): two successful "
           "refreshes within 10 s, then 60 reads of keys of both masters cause 0 MOVED/ASK and answer correctly. A third of the cases run the periodic refresh at its production rate (2 min: never during a case), so that "
           "only refreshes triggered by a redirection or by a failed connect can teach the proxy a new layout (convergence = a sweep without redirections); in a quarter of the cases 1..2 live masters are reported as "
-          "master,fail? (PFAIL) by the other nodes. Non-trivial: a fault was followed by "
-          "traffic to the same address, or a layout change moved slots. Distinct by canonical JSON of the history."),
+          "master,fail? (PFAIL) by the other nodes. Part overlap (periodic refresh at its production rate): 2..4 masters whose CLUSTER NODES replies are written 40..200 ms after they were composed; a slot moves, one read is "
+          "redirected and starts a refresh; 0..60 % of the delay after that refresh's request arrived 1..3 further slots move, each followed by one redirected read while the refresh composed before the move is in flight; "
+          "then no traffic until no refresh has completed for 1.5 delays + 150 ms: reading every moved key once more must cause 0 MOVED/ASK. Non-trivial: a fault was followed by "
+          "traffic to the same address, or a layout change moved slots; (overlap) a redirected read was answered while a refresh asked before the change had not been installed. Distinct by canonical JSON of the history."),
     assumptions=["the periodic slot refresh runs every 50 ms and its minimum spacing is 5 ms in the harness (2 min / 5 s in production): recovery after a fail-over without any redirection is bounded by that period",
                  "connect time-outs against black-holed addresses are not generated (refused connects and resets are)"],
     parts=[
         dict(name="heal", test="TestHeal", kind="rapid", checks={"quick": 30, "thorough": 500}, shards=16, timeout={"quick": 900, "thorough": 3400}, shrinktime="90s", gomaxprocs=4, crash_is_violation=True),
+        dict(name="overlap", test="TestOverlap", kind="rapid", checks={"quick": 15, "thorough": 250}, shards=16, timeout={"quick": 900, "thorough": 3400}, shrinktime="60s", gomaxprocs=4, crash_is_violation=True),
     ],
 )
 
